@@ -411,9 +411,13 @@ def check_copy(case):
     gname, sname, (fname, i, fref, fcard), ch = found
     comps = case['comps'][:len(ch)]
 
+    def words_of(j, c):
+        sub = T.ref_children(v, ch[j][2])
+        return c[:len(sub)] if (sub and len(sub) > 1) else c[:1]
+
     def model_line(ec):
-        # components are plain words (sub-component 1 of each component)
-        return R.enc_segment(sname, {i: ec['COMPONENT'].join(ec['SUBCOMPONENT'].join(c[:1 + (len(T.ref_children(v, ch[j][2]) or ()) > 1) * (len(c) - 1)]) for j, c in enumerate(comps))}, ec)
+        # every component holds plain words: one per sub-component where the component's datatype has several, else one
+        return R.enc_segment(sname, {i: ec['COMPONENT'].join(ec['SUBCOMPONENT'].join(words_of(j, c)) for j, c in enumerate(comps))}, ec)
     try:
         donor = Message(m, version=v, validation_level=TOL, encoding_chars=dict(case['ec1']))
         g = donor.add_group(gname)
